@@ -6,7 +6,8 @@ PROPS["C12"] = dict(
          "from the driver or from goroutines of their own, interleaved with Cancel calls (any future by index or the head of the queue, 1..3 times, "
          "before or after firing, from another goroutine) and short sleeps; a 'neighbour' step issues two futures 3..200 microseconds apart with the same delay while a busy callback frees a worker exactly at the first deadline. t0 is read immediately before Call (fire time is computed after it), "
          "Cancel's return time immediately after it returns. A generations unit schedules a first generation of 1..9000(20000) futures (due in 10 min and cancelled, or due at once and left to fire, or alternating), a second generation of 1..3000 futures due 30-150 ms ahead (part of it before the first cancel sweep), "
-         "and then cancels every handle of the first generation again 0-3 times (forward, reverse or shuffled): every future of the second generation is started exactly once, not early; the heap stays consistent. non-trivial = a Cancel removed a pending future that was not the latest of >= 3 "
+         "and then cancels every handle of the first generation again 0-3 times (forward, reverse or shuffled): every future of the second generation is started exactly once, not early; the heap stays consistent. In 'layered' cases the first generation is a heap of 3..127 futures, two thirds due in 10 min and one third within 150-400 ms; the far ones are cancelled one by one "
+         "and after every cancel the pending queue is checked to be a heap with consistent indexes (overlay accessor); the near ones must start on time. non-trivial = a Cancel removed a pending future that was not the latest of >= 3 "
          "pending ones, or a Cancel returned within 2 ms of the due time; distinct = hash of the case",
     assumptions=["monotonic clock readings of one process are comparable; all C12 oracles are one-sided or exact, none depends on a tolerance",
                  "'never started' is observed until the batch is over + 100 ms; a future that is never started in a batch without any Cancel is left to C13",
